@@ -1,9 +1,12 @@
 package rules
 
 import (
+	"encoding/json"
 	"fmt"
+	"go/ast"
 	"go/token"
 	"go/types"
+	"os"
 	"sort"
 	"strings"
 
@@ -186,3 +189,51 @@ func firstOf(ps []token.Pos) token.Pos {
 }
 
 func itoa(n int) string { return fmt.Sprintf("%d", n) }
+
+// genCounts writes a key -> count table in table-generation mode.
+func genCounts(r *core.Run, name string, got map[string]int) {
+	if os.Getenv("CADCHECK_GEN_TABLES") == "" {
+		return
+	}
+	b, _ := json.MarshalIndent(got, "", " ")
+	_ = os.WriteFile(r.VerifDir+"/tables/"+name+".json", b, 0o644)
+}
+
+// literalOwners: composite literals (and new(T)) of the named struct type inside function bodies may occur only in
+// the allowed constructor functions.
+func literalOwners(r *core.Run, rule, rel, typeName string, allowed map[string]string) int {
+	w := r.W
+	n := 0
+	for path, p := range w.ByPath {
+		if !core.InMod(path) || !w.InScope(path) {
+			continue
+		}
+		for _, f := range p.Syntax {
+			for _, d := range f.Decls {
+				fd, ok := d.(*ast.FuncDecl)
+				if !ok || fd.Body == nil {
+					continue
+				}
+				key := core.DeclKey(p, fd)
+				ast.Inspect(fd.Body, func(nd ast.Node) bool {
+					cl, ok := nd.(*ast.CompositeLit)
+					if !ok {
+						return true
+					}
+					tp, tn := core.ExprTypeName(cl, p.TypesInfo)
+					if tn != typeName || tp != mod+"/"+rel {
+						return true
+					}
+					n++
+					if why, ok := allowed[key]; ok {
+						r.OK(rule, key+": "+typeName+"{…}", cl.Pos(), "reviewed constructor: "+why)
+					} else {
+						r.Bad(rule, key+": "+typeName+"{…}", cl.Pos(), typeName+" is constructed by a literal outside its constructors "+listKeys(allowed)+": the constructor's obligations (normalisation, tracking, metering) are bypassed")
+					}
+					return true
+				})
+			}
+		}
+	}
+	return n
+}
